@@ -750,6 +750,16 @@ def check_e2e(case):
                 res.fail('e2e:norm-finiteness-differs', f"eval {j}: solver norm {v} recomputed {refv}")
             continue
         slack = 1e-13 * (scale + mag) * math.sqrt(2 * n)
+        if not linear:
+            # ExplicitComponent._apply_nonlinear restores the outputs arithmetically (outputs -= residuals), which loses
+            # eps*|residual| of them; the state snapshot (taken after that) and hence the recomputed residual inherit that
+            # error times the local sensitivity of the residual to the outputs
+            with np.errstate(all='ignore'):
+                sens = 1.0 + float(np.max(np.abs(case['p'])) + np.max(np.abs(case['r']))
+                                   + 2 * np.max(np.abs(case['q'])) * np.max(np.abs(state)))
+                slack += 8 * 2.2e-16 * max(v, refv) * sens * math.sqrt(2 * n)
+        if not math.isfinite(slack):
+            continue
         if abs(v - refv) > 1e-9 * refv + slack:
             res.fail('e2e:norm-not-the-residual-norm', f"eval {j}: solver norm {v!r} recomputed {refv!r} slack {slack:g}")
             break
